@@ -82,6 +82,7 @@ fn main() {
             "rxwrap" => globrun::handle_rxwrap(&rest),
             "rxrefs" => globrun::handle_rxrefs(&rest),
             "rxclasses" => globrun::handle_rxclasses(&rest),
+            "rxintervals" => globrun::handle_rxintervals(&rest),
             "oracle" => oracle::handle(&rest),
             "paths" => pathrun::handle(&rest),
             _ => "badcase".to_string(),
